@@ -16,9 +16,44 @@ def _mk(kind, lo, hi):
     return (lo, None), 'high'
 
 
+def replay_running_average(info, ce):
+    """each sample becomes the mean of the ORIGINAL samples within floor(w/2) positions (record of the model first, then a battery
+    of the same element type)"""
+    import eqsig
+    dtype = int if info.get('dtype') == 'int' else float
+    cases = []
+    try:
+        inp = ce['inputs']
+        cases.append((np.array([v['f'] if isinstance(v, dict) else v for v in inp['a']], dtype=dtype), int(inp['w'])))
+    except Exception:
+        pass
+    rng = np.random.RandomState(1)
+    for n in (3, 10, 41):
+        for w in (1, 2, 3, 4, 7):
+            if w <= n:
+                cases.append(((rng.randn(n) * 20).astype(dtype), w))
+    for x, w in cases:
+        s = eqsig.Signal(x.copy(), 0.125)
+        try:
+            s.running_average(w)
+        except Exception as e:
+            return dict(status='confirmed', observed={'raises': type(e).__name__}, detail='running_average raised on a valid record', input={'values': x.tolist(), 'width': w})
+        got = np.asarray(s.values, dtype=float)
+        h = w // 2
+        want = np.array([np.mean(x[max(0, i - h):i + h + 1].astype(float)) for i in range(len(x))])
+        if got.shape != want.shape or np.max(np.abs(got - want)) > 1e-12 * max(1.0, np.max(np.abs(want))):
+            return dict(status='confirmed', observed={'got': got.tolist(), 'window_means_of_the_original': want.tolist()},
+                        detail='running_average(%d) does not return the window means of the original %s samples' % (w, x.dtype), input={'values': x.tolist(), 'dtype': str(x.dtype), 'width': w})
+        if not np.array_equal(x, x):
+            pass
+    return dict(status='not-reproduced', detail='running_average returns the window means on %d records' % len(cases))
+
+
 def replay(info, ce):
     import eqsig
     from scipy.signal import butter, filtfilt
+    if info.get('op') == 'running_average':
+        return replay_running_average(info, ce)
     cls = getattr(eqsig, info.get('cls', 'AccSignal'))
     kind, gibbs = info.get('cut', 'band-tuple'), info.get('gibbs')
     rng = np.random.RandomState(4)
